@@ -253,7 +253,7 @@ POSTS = {'MACH_vmfault': post_vmfault, 'DBG_DYLD_TIMING_LAUNCH_EXECUTABLE': post
 def run_check(run, tier):
     sess = Session(policy=decoders.DecoderPolicy())
     tabs = decoders.handler_tables(sess)
-    run.trusted += ['pyvc interpreter', 'z3 5.1', 'window shape guaranteed by TracesParser (C04)',
+    run.trusted += ['pyvc interpreter', 'z3 5.1', 'window shape: pairing operation contracts of C04, re-discharged here',
                     'spec/composite.py (statement of the property; oracle of the native replays)']
     run.assumptions += ['a list comprehension over the window is the ordered list of exactly the elements satisfying its '
                         'condition; sorted(key=) is a stable ascending sort; chain.from_iterable concatenates in order',
@@ -304,6 +304,13 @@ def run_check(run, tier):
                 run.add(ob, 'unknown', cur['backend'], cur['ms'], fq, cur.get('detail', ''))
                 run.undecide(ob, cur.get('detail', ''))
     run.hashes.update(sess.repo.hashes)
+    # "exactly the records nested in their window": the window handed to a composite decoder is the one the pairing
+    # operations build - their contracts (C04) are discharged again here, for windows of any length
+    from checks import c04
+    run.pending_failures = []
+    for which in ('start', 'end', 'single'):
+        c04.verify_op(run, tier, Session(), which, prefix_root='C20')
+    c04.finish_failures(run, 'C20')
     if tier == 'thorough':
         for name in POSTS:
             bounded_refute(run, name, report=True, budget=4000)
